@@ -161,6 +161,8 @@ class SiteTracer(Tracer):
         from .symx import IDENTITY_CALLS, STD_NUM_RX
         if path and self.rx.fullmatch(path):
             self.site("contract", n or {}, path, list(args))
+            for a in args:
+                self.explore_closure(a)
             return app(path, *args)
         if path and PANICKY_RX.fullmatch(path) and n is not None:
             self.site("call", n, path, list(args))
@@ -386,8 +388,10 @@ class SiteTracer(Tracer):
                 e = s["e"]
                 from .symx import is_assert, _panics
                 if e.get("k") in ("assign", "assignop"):
-                    tgt = strip(e["l"])
-                    if tgt.get("k") == "path" and tgt.get("res") == "local":
+                    from .facts import plain_local
+                    nm_ = plain_local(e["l"])
+                    if nm_ is not None:
+                        tgt = {"name": nm_}
                         r = self.eval(e["r"], env)
                         if e["k"] == "assignop":
                             lv = self.eval(e["l"], env)
@@ -409,13 +413,20 @@ class SiteTracer(Tracer):
                 if _panics(e):
                     self.site("panic", e, "explicit panic", [])
                     return ("panic",)
-                v = self.eval(e, env)
                 # early exit: `if c { return/break/continue }` without else => not c afterwards
                 ee = strip(e)
                 if ee.get("k") == "if" and "e" not in ee and diverges(ee["t"]):
                     c = self.eval(ee["c"], env)
-                    self.guards.append((c, False))
-                    pushed += 1
+                    if not (isinstance(c, tuple) and c and c[0] == "bool"):
+                        self.guards.append((c, True))
+                        try:
+                            self.eval(ee["t"], dict(env))
+                        finally:
+                            self.guards.pop()
+                        self.guards.append((c, False))
+                        pushed += 1
+                        continue
+                v = self.eval(e, env)
             if n.get("e") is not None:
                 return self.eval(n["e"], env)
             return ("tuple", [])
